@@ -945,10 +945,84 @@ def r4_fresh_per_call(run):
                       runtime_witness='a later request (or another thread) reads the previous request through the app object')
 
 
+# ---------------------------------------------------------------------------
+# R5 a memoised function does not hand out a mutable container it built
+# ---------------------------------------------------------------------------
+
+_FRESH_MUTABLE_CALLS = ('dict', 'list', 'set', 'bytearray', 'defaultdict', 'OrderedDict', 'deque')
+
+
+def _fresh_mutable(e) -> bool:
+    if isinstance(e, (ast.Dict, ast.List, ast.Set, ast.ListComp, ast.DictComp, ast.SetComp)):
+        return True
+    return isinstance(e, ast.Call) and isinstance(e.func, ast.Name) and e.func.id in _FRESH_MUTABLE_CALLS
+
+
+def r5_memo_returns_mutable(run):
+    """An lru_cache returns the SAME object to every caller with that key.  If
+    that object is a dict/list/set the function built, any caller that keeps
+    and later mutates it (falcon stores the parsed query parameters on the
+    request and updates them in place) changes what every other request with
+    the same key receives.  Decided for every memoised function of the
+    package: no return value is, or is a local bound to, a freshly built
+    mutable container (tuples/frozensets/strings/numbers/instances are not
+    judged here; instances are covered by the allow-list of R3).
+    W: lru_cache on parse_query_string: a POST's form fields appear in the
+    params of a concurrent GET with the same query string."""
+    p = run.project
+    n = 0
+    for g in p.all_functions():
+        if not _in_scope(g.module.name):
+            continue
+        memo = _lru_decorated(p, g)
+        if not memo:
+            # module-level alias  X = functools.lru_cache(f)
+            for k, v in g.module.consts.items():
+                if isinstance(v, ast.Call) and v.args and isinstance(p.resolve_callable(_ModF(g.module), v.func), str) \
+                        and p.resolve_callable(_ModF(g.module), v.func) in LRU_WRAPPERS:
+                    t = p.resolve_callable(_ModF(g.module), v.args[0])
+                    if t is g:
+                        memo = True
+        if not memo:
+            continue
+        n += 1
+        local_fresh = {}
+        for a in walk_self(g.node):
+            if isinstance(a, (ast.Assign, ast.AnnAssign)) and a.value is not None:
+                tg = a.targets if isinstance(a, ast.Assign) else [a.target]
+                for t in tg:
+                    if isinstance(t, ast.Name) and _fresh_mutable(a.value):
+                        local_fresh[t.id] = a
+        bad = None
+        for r in walk_self(g.node):
+            if isinstance(r, ast.Return) and r.value is not None:
+                v = r.value
+                if _fresh_mutable(v) or (isinstance(v, ast.Name) and v.id in local_fresh):
+                    bad = r
+        run.check(bad is None, 'memoised %s does not return a mutable container it built (every caller with the same key would share it)' % g.qual, g,
+                  bad if bad is not None else 'returns of %s' % g.name, where=g.loc(bad),
+                  runtime_witness='two requests with the same query string share one params dict; an in-place update by one is seen by the other')
+    if n < 5:
+        raise AnchorError('memoised functions of the package not found (%d)' % n)
+
+
+class _ModF:
+    def __init__(self, module):
+        self.module = module
+        self.parent = None
+        self.nested = {}
+        self.cls = None
+        self.node = ast.parse('def _m(): pass').body[0]
+
+    def params(self):
+        return []
+
+
 def check(run):
     run.assume('configuration-time mutation (add_route, add_error_handler, option assignment) does not race with traffic; user code is out of scope')
     run.assume('objects handed out by lru_cache-d functions are not mutated by user code')
     run.rule('R1', r1_compile_lock, 'lazy router compilation under the lock, re-check, publish after build, re-read tables', floor=7)
     run.rule('R2', r2_no_request_state, 'no store into self on the request path of shared objects', floor=45)
     run.rule('R3', r3_inventory, 'shared-state inventory against the reasoned allow-list', floor=24)
+    run.rule('R5', r5_memo_returns_mutable, 'memoised functions do not hand out mutable containers they built', floor=5)
     run.rule('R4', r4_fresh_per_call, 'params/req/resp fresh per call and never parked on self', floor=30)
